@@ -89,7 +89,9 @@ func discharge(obls []*Obligation, timeoutMs int) {
 			continue
 		}
 		o := o
-		asserts := append(append([]*Term{}, o.Assumes...), Not(o.Goal))
+		ctr := 0
+		asserts := append(append([]*Term{}, o.Assumes...), Not(extGoal(o.Goal, true, &ctr)))
+		asserts = append(asserts, canonFacts(asserts)...)
 		var modelTerms []*Term
 		for _, in := range o.Inputs {
 			if in.T.Sort == SBool || bvWidth(in.T.Sort) > 0 {
@@ -160,6 +162,7 @@ func cmdVerify(args []string) int {
 	timeout := fs.Int("t", 10000, "solver timeout ms")
 	verbose := fs.Bool("v", false, "verbose")
 	all := fs.String("all", "", "verify all contracted functions of a layer (L2, L3, all)")
+	lem := fs.Bool("lemmas", false, "prove the lemmas of the contract files")
 	fs.Parse(args)
 	w, err := LoadWorld()
 	if err != nil {
@@ -181,6 +184,24 @@ func cmdVerify(args []string) int {
 			}
 		}
 		sort.Strings(keys)
+	}
+	if *lem {
+		ex.obls = nil
+		for _, l := range w.lemmas {
+			ex.VerifyLemma(l)
+		}
+		discharge(ex.obls, *timeout)
+		for _, o := range ex.obls {
+			st := "ok"
+			if o.Res.Status != "unsat" {
+				st = "FAIL(" + o.Res.Status + ")"
+				bad++
+			}
+			fmt.Printf("  %-6s %s [%s %.2fs] %s\n", st, o.Name, o.Res.Solver, o.Res.Seconds, firstN(o.Note, 80))
+			if o.Res.Status != "unsat" && *verbose {
+				fmt.Println("     raw:", o.Res.Raw)
+			}
+		}
 	}
 	for _, key := range keys {
 		fn := w.fns[key]
@@ -232,4 +253,3 @@ func cmdVerify(args []string) int {
 	return 0
 }
 
-func cmdCheck(args []string) int { fmt.Println("not implemented"); return 2 }
